@@ -31,4 +31,37 @@ def fxViewOffset : List String :=
 def fxViewLimit : List String :=
   ["val, err := Evaluate(ctx, scope, clause.Value)", "if(err != nil){", "return err", "}", "var limit int", "if(clause.Percentage()){", "number := value.ToFloat(val)", "if(value.IsNull(number)){", "return NewInvalidLimitPercentageError(clause)", "}", "percentage := number.(*value.Float).Raw()", "value.Discard(number)", "if(math.IsNaN(percentage)){", "return NewInvalidLimitPercentageError(clause)", "}", "if(100 < percentage){", "percentage = 100", "}", "else{", "if(percentage < 0){", "percentage = 0", "}", "}", "limit = int(math.Ceil(float64(view.RecordLen()+view.offset) * percentage / 100))", "}", "else{", "number := value.ToInteger(val)", "if(value.IsNull(number)){", "return NewInvalidLimitNumberError(clause)", "}", "limit = int(number.(*value.Integer).Raw())", "value.Discard(number)", "if(limit < 0){", "limit = 0", "}", "}", "if(view.RecordLen() <= limit){", "return nil", "}", "if(clause.WithTies() && view.sortValuesInEachRecord != nil && 0 < limit){", "bottomSortValues := view.sortValuesInEachRecord[view.offset+limit-1]", "for(limit < view.RecordLen()){", "if(!bottomSortValues.EquivalentTo(view.sortValuesInEachRecord[view.offset+limit])){", "break", "}", "limit++", "}", "}", "view.RecordSet = view.RecordSet[:limit]", "return nil"]
 
+/-- `View.ExtendRecordCapacity`, statement by statement: every record gets its OWN allocation `make(Record, len, cap)`
+    and the old cells are copied into it, index by index (content and indices unchanged) -/
+def fxViewExtendRecordCapacity : List String :=
+  ["fieldCap := view.FieldLen() + view.numberOfColumnsToBeAdded(exprs, funcs)", "if(0 < view.RecordLen() && fieldCap <= cap(view.RecordSet[0])){", "return nil", "}", "return NewGoroutineTaskManager(view.RecordLen(), -1, scope.Tx.Flags.CPU).Run(ctx, func(index int) error { record := make(Record, view.FieldLen(), fieldCap) copy(record, view.RecordSet[index]) view.RecordSet[index] = record return nil })"]
+
+/-- `View.Swap`: the records, their sort keys and the per-cell sort-value cache move together -/
+def fxViewSwap : List String :=
+  ["view.RecordSet[i], view.RecordSet[j] = view.RecordSet[j], view.RecordSet[i]", "view.sortValuesInEachRecord[i], view.sortValuesInEachRecord[j] = view.sortValuesInEachRecord[j], view.sortValuesInEachRecord[i]", "if(view.sortValuesInEachCell != nil){", "view.sortValuesInEachCell[i], view.sortValuesInEachCell[j] = view.sortValuesInEachCell[j], view.sortValuesInEachCell[i]", "}"]
+
+/-- the clause methods query.go calls on the view of a SELECT (selectEntity runs first, then selectQuery) -/
+def clauseCallOrder : List String :=
+  ["selectQuery:view.OrderBy", "selectQuery:view.Offset", "selectQuery:view.Limit", "selectQuery:view.Fix", "selectEntity:view.Where", "selectEntity:view.GroupBy", "selectEntity:view.Having", "selectEntity:view.Select"]
+
+/-- functions that replace or move records of a view but run outside the lifetime of the per-cell sort-value cache:
+    the cache is created by evalAnalyticFunction / Analyze (called from View.Select and View.OrderBy only) and is
+    cleared by View.Fix at the end of every query — WHERE / GROUP BY / HAVING (filter, group, groupAll) run before
+    View.Select (`clauseCallOrder`), the others work on a view that has been fixed or freshly built -/
+def rebuildsOutsideCacheLifetime : List String :=
+  ["query.go:Delete", "query.go:AddColumns", "view.go:NewViewFromGroupedRecord", "view.go:View.filter", "view.go:View.group",
+   "view.go:View.groupAll", "view.go:View.insert", "view.go:View.replace", "view.go:View.Union", "view.go:View.Except",
+   "view.go:View.Intersect", "view.go:View.Restore"]
+
+/-- View.ExtendRecordCapacity replaces every record by a copy of itself at the same index (`fxViewExtendRecordCapacity`) -/
+def rebuildsKeepingContent : List String := ["view.go:View.ExtendRecordCapacity"]
+
+/-- View.Offset shifts the records and records the shift in `view.offset`, which View.Limit adds to every index into
+    sortValuesInEachRecord (`fxViewLimit`); only View.Limit and View.Fix run after it (`clauseCallOrder`) -/
+def rebuildsRecordedInOffset : List String := ["view.go:View.Offset"]
+
+/-- the ways a Record gets its storage that keep its capacity window its own -/
+def boundedRecordSources : List String :=
+  ["alloc", "alloc-cap", "append-self", "slice3", "reslice-own", "move", "call:NewEmptyRecord"]
+
 end Csvq.Ref
